@@ -85,3 +85,42 @@ Proof.
   unfold mon_ok, mon_step. intros -> -> H1 H2 H3. rewrite H1. cbn [negb].
   rewrite H2, Z.eqb_refl. cbn [negb]. rewrite H3. reflexivity.
 Qed.
+
+(* ---- the same rule, carrying a property of every request's outcome together with the state it leaves (flags: C09) ---- *)
+Definition line_fl (Fl : sched -> outcome -> Prop) (l : line) : Prop :=
+  match l with LNext o ob => exists s1, ob = observe s1 /\ Fl s1 o | LFin _ _ => True end.
+Section INVFL.
+Variable p : xparams.
+Variable I : sched -> mon -> Prop.
+Variable Fl : sched -> outcome -> Prop.
+Hypothesis step : forall s m, I s m -> mon_ok m -> good_step p I s m /\ Fl (fst (next s)) (snd (next s)).
+Lemma run_nexts_fl : forall k s m, I s m -> mon_ok m ->
+  let '(s', m', ls) := run_ops p s m (repeat Next k) in I s' m' /\ mon_ok m' /\ no_raise ls /\ Forall (line_fl Fl) ls.
+Proof.
+  induction k as [|k IH]; intros s m HI Hm; cbn [repeat run_ops].
+  - repeat split; [assumption|assumption|constructor|constructor].
+  - destruct (step s m HI Hm) as [Hs Hf]. unfold good_step in Hs.
+    destruct (next s) as [s' o]. cbn [fst snd] in Hf. destruct o as [a| |e]; [|idtac|contradiction].
+    + destruct Hs as [Hm' HI']. specialize (IH s' _ HI' Hm').
+      destruct (run_ops p s' _ (repeat Next k)) as [[s2 m2] ls]. destruct IH as (?&?&?&?).
+      repeat split; try assumption; constructor; try assumption; [exact Logic.I|exists s'; auto].
+    + specialize (IH s' m Hs Hm).
+      destruct (run_ops p s' m (repeat Next k)) as [[s2 m2] ls]. destruct IH as (?&?&?&?).
+      repeat split; try assumption; constructor; try assumption; [exact Logic.I|exists s'; auto].
+Qed.
+End INVFL.
+
+(* is_running is True after every request, whatever the class and the state (schedule.py: the wrapper is created by next) *)
+Lemma next_started s : started (fst (next s)) = true.
+Proof.
+  unfold next. destruct (ob s) as [o|c m ram disk|n sn sg tab plan m fin|k n ram disk r].
+  - destruct (Online.next o). reflexivity.
+  - destruct (Multistage.next c m). reflexivity.
+  - destruct fin; [reflexivity|]. destruct (match plan with Some f => Ok f | None => _ end); [|reflexivity].
+    destruct (Mixed.resume 3 _ m). reflexivity.
+  - destruct (RevConv.next n r). reflexivity.
+Qed.
+(* the flag rule of C09 for a class whose final action is recognised by fin_act (fun _ => false for the classes that never conclude) *)
+Definition flag_rule (fin_act : action -> bool) (s' : sched) (o : outcome) : Prop :=
+  is_running s' = true /\
+  match o with Yield a => is_exhausted s' = fin_act a | StopIteration => is_exhausted s' = true | Raise _ => True end.
